@@ -1,8 +1,73 @@
-import Pun.Model.Proto
+import Pun.Model.Param
+/-!
+C09 line protocol
+
+* `par <sig 0|1> <k> <pspec>×k <m> <pspec>×m <t> <entry>×t`  — `_bound_pcdf` with k positional and
+  m keyword parameters; entries `corner;row;mean;var` or `corner;nan`
+* `uni <n> <pspec> <pspec>`                                   — bespoke `uniform`
+* `ebl <pspec> <row|nan> <row|nan>`                           — `exponential_by_lambda`
+
+pspec: `N:<x>` number, `L:[…]` list/tuple, `I:<lo>:<hi>` Interval object, `X` unsupported type.
+Reply: `ok <left> <right> <meanLo> <meanHi> <varLo> <varHi>` or `err <Kind>`.
+-/
 namespace Pun.Drv.C09
-open Pun
+open Pun Pun.Param
+
+def parseSpec (s : String) : Option PSpec :=
+  if s == "X" then some .other else
+  match s.splitOn ":" with
+  | ["N", x] => (parseRat x).map .num
+  | ["L", l] => (parseList l).map .seq
+  | ["I", a, b] => do some (.ivl (← parseRat a) (← parseRat b))
+  | _ => none
+
+def takeSpecs : Nat → List String → Option (List PSpec × List String)
+  | 0, rest => some ([], rest)
+  | k + 1, s :: rest => do
+      let p ← parseSpec s
+      let (ps, rest') ← takeSpecs k rest
+      some (p :: ps, rest')
+  | _ + 1, [] => none
+
+def parseRowO (s : String) : Option (Option (List Rat)) :=
+  if s == "nan" then some none else (parseList s).map some
+
+def parseEntry (s : String) : Option (List Rat × Option Entry) :=
+  match s.splitOn ";" with
+  | [c, "nan"] => do some (← parseList c, none)
+  | [c, r, m, v] => do
+      some (← parseList c, some ⟨← parseList r, ← parseRat m, ← parseRat v⟩)
+  | _ => none
+
+def showOut : Except Err Out → String
+  | .ok o => s!"ok {showList o.left} {showList o.right} {showRat o.meanLo} {showRat o.meanHi} {showRat o.varLo} {showRat o.varHi}"
+  | .error e => s!"err {e}"
+
+def handlePar (sig : String) (rest : List String) : Option String := do
+  let sigOK ← (if sig == "1" then some true else if sig == "0" then some false else none)
+  let (ks, rest1) ← (match rest with | k :: r => some (k, r) | [] => none)
+  let k ← parseNat ks
+  let (pos, rest2) ← takeSpecs k rest1
+  let (ms, rest3) ← (match rest2 with | m :: r => some (m, r) | [] => none)
+  let m ← parseNat ms
+  let (kw, rest4) ← takeSpecs m rest3
+  let (ts, ents) ← (match rest4 with | t :: r => some (t, r) | [] => none)
+  let t ← parseNat ts
+  if ents.length ≠ t then none else
+  let tbl ← ents.mapM parseEntry
+  let r ← parametric sigOK pos kw tbl
+  some (showOut r)
 
 def handle : List String → String
+  | "par" :: sig :: rest => (handlePar sig rest).getD "bad-op"
+  | ["uni", n, a, b] =>
+    match parseNat n, parseSpec a, parseSpec b with
+    | some n, some a, some b => if n < 2 then "bad-op" else showOut (uniform n a b)
+    | _, _, _ => "bad-op"
+  | ["ebl", p, ra, rb] =>
+    match parseSpec p, parseRowO ra, parseRowO rb with
+    | some p, some ra, some rb => showOut (exponentialByLambda p ra rb)
+    | _, _, _ => "bad-op"
   | _ => "bad-op"
 
 end Pun.Drv.C09
